@@ -138,6 +138,8 @@ Definition justified (past : list ev) (e : ev) : Prop :=
   | EKill u => ~ In (EKill u) past /\ ~ called u past
   | ECheck n b g => b = g
   | EAdd t0 u n ms c k => forall t0' n' ms' c' k', ~ In (EAdd t0' u n' ms' c' k') past
+  | EClear => forall t0 u n ms c k, In (EAdd t0 u n ms c k) past -> In (EKill u) past \/ called u past
+  | EMode code t => code = 1 \/ code = 3 -> exists past', past = EClear :: past'
   | _ => True
   end.
 
@@ -207,7 +209,8 @@ Ltac finish_inv := unfold inv_core; repeat (split; [assumption|]); assumption.
 
 (* harmless events *)
 Definition harmless (e : ev) : Prop :=
-  match e with ECheck n b g => b = g | EDict _ => True | EOof => True | EReject _ => True | _ => False end.
+  match e with ECheck n b g => b = g | EDict _ => True | EOof => True | EReject _ => True
+             | ERaise _ => True | ECaught _ => True | _ => False end.
 
 Lemma inv_core_harmless nx ts lg e : harmless e -> inv_core nx ts lg -> inv_core nx ts (e :: lg).
 Proof.
@@ -234,6 +237,52 @@ Proof.
     - right; right. apply called_with_cons; auto. }
   assert (C8 : log_ok (e :: lg)) by (cbn; split; auto; destruct e; cbn in *; auto; contradiction).
   finish_inv.
+Qed.
+
+
+(* marker events (EClear, EMode, ...): anything that is not an add/kill/call may be logged when it is justified *)
+Definition marker (e : ev) : Prop :=
+  match e with EAdd _ _ _ _ _ _ => False | EKill _ => False | ECall _ _ _ _ _ => False | _ => True end.
+
+Lemma inv_core_marker nx ts lg e : marker e -> justified lg e -> inv_core nx ts lg -> inv_core nx ts (e :: lg).
+Proof.
+  intros He Je (N1 & N2 & I3 & I4 & I4k & I4c & I5 & I6 & I7 & I8).
+  assert (NA : forall t0 u n ms c k, In (EAdd t0 u n ms c k) (e :: lg) -> In (EAdd t0 u n ms c k) lg)
+    by (intros ? ? ? ? ? ? [H|H]; [subst e; contradiction|exact H]).
+  assert (NK : forall u, In (EKill u) (e :: lg) -> In (EKill u) lg)
+    by (intros ? [H|H]; [subst e; contradiction|exact H]).
+  assert (NC : forall u, called u (e :: lg) -> called u lg)
+    by (intros u; apply called_cons_other; intros; intro; subst e; contradiction).
+  assert (C4 : forall t0 u n ms c k, In (EAdd t0 u n ms c k) (e :: lg) -> u < nx) by (intros; eapply I4; eauto).
+  assert (C4k : forall u, In (EKill u) (e :: lg) -> u < nx) by auto.
+  assert (C4c : forall u, called u (e :: lg) -> u < nx) by auto.
+  assert (C5 : forall tm, In tm ts -> exists t0 ms,
+        In (EAdd t0 (t_id tm) (t_name tm) ms (t_cb tm) (t_kw tm)) (e :: lg) /\ t_when tm = t0 + 1000 * ms).
+  { intros tm Hin. destruct (I5 tm Hin) as [t0 [ms [H1 H2]]]. exists t0, ms. split; auto. right; auto. }
+  assert (C6 : forall tm, In tm ts -> ~ In (EKill (t_id tm)) (e :: lg) /\ ~ called (t_id tm) (e :: lg)).
+  { intros tm Hin. split; intro H; [apply NK in H; apply (proj1 (I6 tm Hin)); auto|
+                                    apply NC in H; apply (proj2 (I6 tm Hin)); auto]. }
+  assert (C7 : forall t0 u n ms c k, In (EAdd t0 u n ms c k) (e :: lg) ->
+        is_live u ts = true \/ In (EKill u) (e :: lg) \/ called_with u c k (e :: lg)).
+  { intros t0 u n ms c k H. apply NA in H. destruct (I7 _ _ _ _ _ _ H) as [A|[A|A]]; auto.
+    - right; left; right; auto.
+    - right; right. apply called_with_cons; auto. }
+  assert (C8 : log_ok (e :: lg)) by (cbn; split; auto).
+  finish_inv.
+Qed.
+
+Lemma called_with_called u c k l : called_with u c k l -> called u l.
+Proof. intros [t [rn H]]. exists t, c, k, rn. exact H. Qed.
+
+(* with no live handle left, every add of the past is dead: clear()'s marker is justified *)
+Lemma inv_core_clear nx lg : inv_core nx [] lg -> inv_core nx [] (EClear :: lg).
+Proof.
+  intro I. apply inv_core_marker; [exact Logic.I| |exact I].
+  destruct I as (_ & _ & _ & _ & _ & _ & _ & _ & I7 & _).
+  cbn. intros t0 u n ms c k H. destruct (I7 _ _ _ _ _ _ H) as [A|[A|A]].
+  - cbn in A. discriminate.
+  - left; exact A.
+  - right. eapply called_with_called; eauto.
 Qed.
 
 (* next may only grow *)
@@ -548,14 +597,23 @@ Proof.
     rewrite map_map. cbn. apply in_map. exact Ht. }
   unfold do_clear. split; cbn.
   - rewrite E. reflexivity.
-  - exact J.
+  - rewrite E in *. apply inv_core_clear. exact J.
+Qed.
+
+Lemma Inv_catch_all k st : Inv st -> Inv (catch_all k st).
+Proof. intro I. unfold catch_all. destruct (raising st); auto. apply Inv_emit_harmless; cbn; auto. Qed.
+
+Lemma Inv_catch_key st : Inv st -> Inv (catch_key st).
+Proof.
+  intro I. unfold catch_key. destruct (raising st) as [k|]; auto. destruct (k =? 1); auto.
+  apply Inv_emit_harmless; cbn; auto.
 Qed.
 
 Lemma Inv_do_run_now call n st : call_ok call -> Inv st -> Inv (do_run_now false call n st).
 Proof.
   intros CO I. pose proof I as [D IC]. unfold do_run_now.
   rewrite D, dict_find_map. destruct (find (name_is n) (timers st)) as [tm|] eqn:F; cbn; auto.
-  apply CO. rewrite do_remove_nf by (apply Inv_wf; auto). unfold removed. rewrite F.
+  apply Inv_catch_key. apply CO. rewrite do_remove_nf by (apply Inv_wf; auto). unfold removed. rewrite F.
   split; cbn; auto. apply inv_core_runnow; auto.
 Qed.
 
@@ -569,12 +627,19 @@ Proof.
   - apply Inv_do_clear; auto.
   - apply Inv_do_run_now; auto.
   - apply Inv_do_check; auto.
+  - apply Inv_emit_harmless; cbn; auto.
 Qed.
 
 Lemma exec_ops_inv call ops : call_ok call -> forall st, Inv st -> Inv (exec_ops false call ops st).
 Proof.
   intro CO. unfold exec_ops. induction ops as [|o ops IH]; cbn; intros st I; auto.
-  apply IH. apply exec_op_inv; auto.
+  apply IH. destruct (raising st); auto. apply exec_op_inv; auto.
+Qed.
+
+Lemma exec_ops_top_inv call ops : call_ok call -> forall st, Inv st -> Inv (exec_ops_top false call ops st).
+Proof.
+  intro CO. unfold exec_ops_top. induction ops as [|o ops IH]; cbn; intros st I; auto.
+  apply IH. apply Inv_catch_all. apply exec_op_inv; auto.
 Qed.
 
 Lemma call_cb_ok scripts fuel : call_ok (call_cb false scripts fuel).
@@ -594,7 +659,29 @@ Proof.
   intros CO I. pose proof I as [D IC]. unfold fire, find_timer.
   destruct (find (id_is u) (timers st)) as [tm|] eqn:F.
   - destruct ((now st <=? t_when tm) && forallb (fun t' => t_when tm <=? t_when t') (timers st)).
-    + apply CO. pose proof IC as (N1 & N2 & _). pose proof (find_id_some _ _ _ F) as [Hin Hu].
+    + apply Inv_catch_all. apply CO. pose proof IC as (N1 & N2 & _). pose proof (find_id_some _ _ _ F) as [Hin Hu].
+      split; cbn.
+      * rewrite D, dict_del_map. f_equal. fold (rmid u (timers st)). rewrite <- Hu. symmetry.
+        apply rmid_rm; auto.
+      * fold (rmid u (timers st)). apply inv_core_fire; auto.
+    + apply Inv_emit_harmless; cbn; auto.
+  - apply Inv_emit_harmless; cbn; auto.
+Qed.
+
+Lemma call_cb_late_ok scripts t : call_ok (call_cb_late false scripts t).
+Proof.
+  intros u c k rn st I. unfold call_cb_late.
+  destruct (MAXLOG <? Z.of_nat (length (log (emit (ECall (now st) u c k rn) st)))).
+  - apply Inv_emit_harmless; [exact Logic.I|]. apply (Inv_with_now t) in I. exact I.
+  - apply exec_ops_inv; [apply call_cb_ok|]. apply (Inv_with_now t) in I. exact I.
+Qed.
+
+Lemma Inv_fire_at call u t st : call_ok call -> Inv st -> Inv (fire_at call u t st).
+Proof.
+  intros CO I. pose proof I as [D IC]. unfold fire_at, find_timer.
+  destruct (find (id_is u) (timers st)) as [tm|] eqn:F.
+  - destruct ((now st <=? t) && (t_when tm <=? t) && forallb (fun t' => t_when tm <=? t_when t') (timers st)).
+    + apply Inv_catch_all. apply CO. pose proof IC as (N1 & N2 & _). pose proof (find_id_some _ _ _ F) as [Hin Hu].
       split; cbn.
       * rewrite D, dict_del_map. f_equal. fold (rmid u (timers st)). rewrite <- Hu. symmetry.
         apply rmid_rm; auto.
@@ -605,9 +692,9 @@ Qed.
 
 Lemma Inv_do_step scripts st s : Inv st -> Inv (do_step false scripts st s).
 Proof.
-  intro I. destruct s as [t ops|u]; unfold do_step.
+  intro I. destruct s as [t ops|u|u t]; unfold do_step; [| |apply Inv_fire_at; auto; apply call_cb_late_ok].
   - destruct (ext_ok t st).
-    + apply Inv_emit_harmless; [exact Logic.I|]. apply exec_ops_inv; [apply call_cb_ok|].
+    + apply Inv_emit_harmless; [exact Logic.I|]. apply exec_ops_top_inv; [apply call_cb_ok|].
       apply Inv_with_now; auto.
     + apply Inv_emit_harmless; [exact Logic.I|auto].
   - apply Inv_fire; auto. apply call_cb_ok.
@@ -702,9 +789,9 @@ Lemma run_now_same_args_l scripts steps call n tm :
   let st := run_from false scripts steps init in
   find (name_is n) (timers st) = Some tm ->
   do_run_now false call n st =
-    call (t_id tm) (t_cb tm) (t_kw tm) true
+    catch_key (call (t_id tm) (t_cb tm) (t_kw tm) true
          (mkS (now st) (next st) (map entry_of (rm n (timers st))) (rm n (timers st))
-              (EKill (t_id tm) :: log st)).
+              (EKill (t_id tm) :: log st))).
 Proof.
   cbv zeta. set (st := run_from false scripts steps init). intro F.
   pose proof (Inv_reach scripts steps) as I. fold st in I. pose proof I as [D _].
@@ -719,6 +806,41 @@ Lemma run_now_legacy_drops_kwargs_l :
 Proof.
   exists [], [Ext 0 [Add 1000 0 (-1) [1; 1]; RunNow 0]], 0, 0, 0, 1000, (-1), [1; 1], 0, [].
   vm_compute. repeat split; auto; discriminate.
+Qed.
+
+(* a callback that raises, run by the loop: its entry and handle are gone (deleted before the call), every other delay
+   is untouched, the exception ends in the loop's exception handler *)
+Definition raise_cb (k : Z) : callfn := fun u cb kw rn s => emit (ERaise k) (emit (ECall (now s) u cb kw rn) s).
+
+Lemma raising_callback_l scripts steps u tm k :
+  let st := run_from false scripts steps init in
+  find_timer u (timers st) = Some tm ->
+  (now st <=? t_when tm) && forallb (fun t' => t_when tm <=? t_when t') (timers st) = true ->
+  let st' := fire (raise_cb k) u st in
+  timers st' = rmid u (timers st) /\ dict st' = map entry_of (rmid u (timers st)) /\
+  log st' = ECaught 0 :: ERaise k :: ECall (t_when tm) u (t_cb tm) (t_kw tm) false :: log st.
+Proof.
+  cbv zeta. set (st := run_from false scripts steps init). intros F OK.
+  pose proof (Inv_reach scripts steps) as I. fold st in I. pose proof I as [D IC].
+  unfold fire. rewrite F, OK. unfold raise_cb, catch_all, raising, emit. cbn.
+  repeat split; auto.
+  pose proof IC as (N1 & N2 & _). unfold find_timer in F. pose proof (find_id_some _ _ _ F) as [Hin Hu].
+  rewrite D, dict_del_map. f_equal. rewrite <- Hu. symmetry. apply rmid_rm; auto.
+Qed.
+
+(* late dispatch is never early and never out of deadline order: such a step is not a behaviour of the loop *)
+Lemma fire_at_early_rejected_l call u t st tm :
+  find_timer u (timers st) = Some tm ->
+  (t < t_when tm \/ exists tm', In tm' (timers st) /\ t_when tm' < t_when tm) ->
+  fire_at call u t st = emit (EReject 2) st.
+Proof.
+  intros F H. unfold fire_at. rewrite F.
+  destruct H as [H|[tm' [Hin H]]].
+  - assert (E : (t_when tm <=? t) = false) by (apply Z.leb_gt; lia). rewrite E, andb_false_r. reflexivity.
+  - assert (E : forallb (fun t' => t_when tm <=? t_when t') (timers st) = false).
+    { destruct (forallb (fun t' => t_when tm <=? t_when t') (timers st)) eqn:A; auto.
+      rewrite forallb_forall in A. specialize (A tm' Hin). apply Z.leb_le in A. lia. }
+    rewrite E, andb_false_r. reflexivity.
 Qed.
 
 (* which handles an operation cancels *)
@@ -772,6 +894,16 @@ Proof.
     + split; auto. exists n. split; auto. cbn [fst]. rewrite Hh. exact H.
   - destruct (p_time_ok p t); cbn; split; auto; exists n; split; auto. cbn. discriminate.
   - destruct (p_time_ok p t); cbn; split; auto; exists n; split; auto.
+  - destruct (p_handle p) as [w|] eqn:Hh.
+    + destruct ((p_now p <=? t) && (w <=? t)).
+      * destruct (p_cancelled p) eqn:Hc.
+        -- split; auto. exists n. split; auto. cbn. discriminate.
+        -- destruct (H eq_refl) as [HL HH]. split; auto. exists (S n). cbn [fst snd pcalls]. split.
+           ++ cbn [ticks_desc]. rewrite C. f_equal. inversion HH. rewrite HL, Nat2Z.inj_succ. lia.
+           ++ intros _. cbn [fst p_last p_handle p_ival]. rewrite IV. split; auto. rewrite HL, Nat2Z.inj_succ. lia.
+      * split; auto. exists n. split; auto. cbn [fst]. rewrite Hh. exact H.
+    + split; auto. exists n. split; auto. cbn [fst]. rewrite Hh. exact H.
+  - destruct (p_now p <=? t); cbn; split; auto; exists n; split; auto. cbn. discriminate.
 Qed.
 
 Lemma pinv_run t0 ival steps : pinv t0 ival (p_run t0 ival steps).
@@ -794,6 +926,8 @@ Proof.
   - destruct (p_handle p); [destruct (p_now p <=? z)|]; rewrite ?Hc; cbn; auto.
   - destruct (p_time_ok p t); cbn; auto.
   - destruct (p_time_ok p t); cbn; auto.
+  - destruct (p_handle p); [destruct ((p_now p <=? t) && (z <=? t))|]; rewrite ?Hc; cbn; auto.
+  - destruct (p_now p <=? t); cbn; auto.
 Qed.
 
 Lemma periodic_none_after_cancel_l steps : forall st,
